@@ -72,7 +72,7 @@ def groups(tier, seed):
                                     for sel in ("concat('f:', name)", "concat_ws('-', 'f', path)", "replace('x-y', 'y', name)")
                                     for o in (0, 1) for r in ('dot', 'two')]}
     # family 6b: ... and nothing else is selected (the query must still be recognised as reading file columns)
-    yield {'tree': 'lim', 'selonly': True, 'cases': [{'sel': i, 'N': n, 'roots': r} for i in range(len(SELONLY)) for n in (None, 0, 1, 2, 5, 50) for r in ('dot', 'two')]}
+    yield {'tree': 'lim', 'selonly': True, 'cases': [{'sel': i, 'N': n, 'roots': r} for i in range(len(SELONLY)) for n in (None, 0, 1, 2, 5, 50) for r in ('dot', 'two', 'none')]}
     # family 7: aggregates see every row whatever LIMIT says (one row is <= any N >= 1), also over several roots
     yield {'tree': 'lim', 'agg': True, 'cases': [{'roots': r, 'N': n, 'arc': a} for r in ('dot', 'two') for n in (None, 1, 2, 5) for a in (False, True)]}
     # family 4: grouped rows are rows too
@@ -374,17 +374,20 @@ SELONLY = [("concat('f:', name)", lambda e: 'f:' + e['name']), ("concat_ws('-', 
 def eval_selonly(env, root, group):
     res = []
     for c in group['cases']:
-        rootlist = ['.'] if c['roots'] == 'dot' else ['sub', 'oth']
+        rootlist = ['.'] if c['roots'] in ('dot', 'none') else ['sub', 'oth']
         ents = []
         for r in rootlist:
             ents += om.entries(root if r == '.' else os.path.join(root, r), prefix=r)
         sel, f = SELONLY[c['sel']]
         N = c['N']
-        q = sel + ' from ' + ', '.join(rootlist) + ('' if N is None else ' limit %d' % N) + ' into list'
+        # ('none': nothing but the select list - the working directory is searched)
+        q = sel + ('' if c['roots'] == 'none' else ' from ' + ', '.join(rootlist)) + ('' if N is None else ' limit %d' % N) + ' into list'
         o = env.run([q], cwd=root)
         rows = o.rows(2) if sel == "1, 'a'" else o.rows()
         M = len(ents)
         want = M if N in (None, 0) else min(N, M)
+        if c['roots'] == 'none' and sel in ('1', "'hit'", '2 + 2', "upper('x')", 'curdate()', "1, 'a'") and N in (None, 0):
+            want = 1        # a bare constant select list is shown once
         allv = sorted(f(e) for e in ents) if f else None
         r = {'case': dict(c, fam='selonly', query=q), 'nt': True, 'layer': 'select-only-function-args'}
         if o.rc != 0 or o.err or len(rows) != want or (allv is not None and any(rows.count(v) > allv.count(v) for v in rows)):
